@@ -1,6 +1,215 @@
-From Coq Require Import List Bool ZArith NArith QArith Lia.
-From DV Require Import Common.Res Common.Str Common.F64 Common.PyNum Time.Model.
+From Coq Require Import List Bool ZArith NArith QArith Lia ZifyBool ZifyN.
+From DV Require Import Common.Res Common.Str Common.F64 Common.PyNum Time.Model Time.Spec.
 Import ListNotations.
+Local Open Scope nat_scope.
 
 Lemma same_function : forall s, dcm_time_to_sec s = tm_to_seconds s.
 Proof. reflexivity. Qed.
+
+(** * characters *)
+Lemma digit_not_space c : is_digit c = true -> py_isspace c = false.
+Proof. unfold is_digit, py_isspace. lia. Qed.
+Lemma digit_not_colon c : is_digit c = true -> N.eqb c 58 = false.
+Proof. unfold is_digit. lia. Qed.
+Lemma digit_not_sign c : is_digit c = true -> N.eqb c 43 = false /\ N.eqb c 45 = false.
+Proof. unfold is_digit. lia. Qed.
+Lemma digit_not_misc c : is_digit c = true ->
+  N.eqb c 95 = false /\ N.eqb c 46 = false /\ N.eqb c 101 = false /\ N.eqb c 69 = false.
+Proof. unfold is_digit. lia. Qed.
+Lemma digit_dec_val c : is_digit c = true -> dec_val c = Some (Z.of_N c - 48)%Z.
+Proof. unfold dec_val. intros ->. reflexivity. Qed.
+
+Lemma d2_digits (n : nat) : n < 100 ->
+  is_digit (48 + N.of_nat (n / 10)) = true /\ is_digit (48 + N.of_nat (n mod 10)) = true.
+Proof.
+  intros Hn. unfold is_digit.
+  assert (n / 10 < 10) by (apply Nat.div_lt_upper_bound; lia).
+  assert (n mod 10 < 10) by (apply Nat.mod_upper_bound; lia).
+  lia.
+Qed.
+
+Lemma d2_value (n : nat) : n < 100 ->
+  ((Z.of_N (48 + N.of_nat (n / 10)) - 48) * 10 + (Z.of_N (48 + N.of_nat (n mod 10)) - 48))%Z = Z.of_nat n.
+Proof.
+  intros Hn. pose proof (Nat.div_mod n 10 ltac:(lia)). lia.
+Qed.
+
+(** * strip is the identity on strings whose first and last characters are not spaces *)
+Lemma py_strip_id s c r :
+  s = c :: r -> py_isspace c = false ->
+  (exists pre z, s = pre ++ [z] /\ py_isspace z = false) -> py_strip s = s.
+Proof.
+  intros -> Hc [pre [z [E Hz]]]. unfold py_strip, py_rstrip.
+  cbn [py_lstrip]. rewrite Hc. rewrite E, rev_app_distr. cbn [rev app py_lstrip]. rewrite Hz.
+  cbn [rev]. rewrite rev_involutive. reflexivity.
+Qed.
+
+(** * int() of two digits *)
+Lemma py_int_two a b : is_digit a = true -> is_digit b = true ->
+  py_int [a; b] = Ok ((Z.of_N a - 48) * 10 + (Z.of_N b - 48))%Z.
+Proof.
+  intros Ha Hb.
+  pose proof (digit_not_space _ Ha) as Sa. pose proof (digit_not_space _ Hb) as Sb.
+  destruct (digit_not_sign _ Ha) as [P M].
+  unfold py_int, py_strip, py_rstrip.
+  cbn [py_lstrip]. rewrite Sa. cbn [rev app py_lstrip]. rewrite Sb. cbn [rev app].
+  unfold split_sign. rewrite P, M.
+  unfold digit_part. rewrite (digit_dec_val _ Ha).
+  cbn [digit_run]. rewrite (digit_dec_val _ Hb). cbn [digit_run]. reflexivity.
+Qed.
+
+Lemma py_int_d2 (n : nat) : n < 100 -> py_int (d2 n) = Ok (Z.of_nat n).
+Proof.
+  intros Hn. destruct (d2_digits n Hn) as [Ha Hb].
+  unfold d2. rewrite (py_int_two _ _ Ha Hb). f_equal. apply d2_value; exact Hn.
+Qed.
+
+(** * removing colons *)
+Lemma remove_colons_app a b : remove_colons (a ++ b) = remove_colons a ++ remove_colons b.
+Proof. apply filter_app. Qed.
+Lemma remove_colons_digits l : all_digits l = true -> remove_colons l = l.
+Proof.
+  unfold all_digits, remove_colons. induction l as [|c l IH]; cbn [forallb filter]; [reflexivity|].
+  intros H. apply andb_prop in H as [Hc Hl]. rewrite (digit_not_colon _ Hc). cbn [negb]. f_equal. auto.
+Qed.
+Lemma remove_colons_sep c : remove_colons (sep c) = [].
+Proof. destruct c; reflexivity. Qed.
+Lemma remove_colons_d2 (n : nat) : n < 100 -> remove_colons (d2 n) = d2 n.
+Proof.
+  intros Hn. apply remove_colons_digits. destruct (d2_digits n Hn) as [Ha Hb].
+  unfold all_digits, d2. cbn [forallb]. rewrite Ha, Hb. reflexivity.
+Qed.
+Lemma remove_colons_frac f : all_digits f = true -> remove_colons (frac_part f) = frac_part f.
+Proof.
+  intros H. destruct f as [|c f]; [reflexivity|]. unfold frac_part.
+  change (remove_colons (46%N :: c :: f)) with (46%N :: remove_colons (c :: f)).
+  f_equal. apply remove_colons_digits; exact H.
+Qed.
+
+(** * digit runs *)
+Lemma digit_run_digits l : all_digits l = true -> forall acc cnt,
+  digit_run dec_val 10 acc cnt l
+  = (fold_left (fun a c => (a * 10 + (Z.of_N c - 48))%Z) l acc, cnt + length l, []).
+Proof.
+  unfold all_digits. induction l as [|c l IH]; intros H acc cnt; cbn [digit_run fold_left length].
+  - f_equal. f_equal. lia.
+  - cbn [forallb] in H. apply andb_prop in H as [Hc Hl].
+    rewrite (digit_dec_val _ Hc). rewrite (IH Hl). f_equal. f_equal. lia.
+Qed.
+
+Lemma fold_digits_shift l : forall acc,
+  fold_left (fun a c => (a * 10 + (Z.of_N c - 48))%Z) l acc
+  = (acc * 10 ^ Z.of_nat (length l) + digits_val l)%Z.
+Proof.
+  unfold digits_val. induction l as [|c l IH]; intros acc; cbn [fold_left length].
+  - change (Z.of_nat 0) with 0%Z. rewrite Z.pow_0_r. lia.
+  - rewrite (IH (acc * 10 + (Z.of_N c - 48))%Z), (IH (0 * 10 + (Z.of_N c - 48))%Z).
+    rewrite Nat2Z.inj_succ, Z.pow_succ_r by lia. lia.
+Qed.
+
+Lemma dec_to_f64_ext sg m m' n n' e e' :
+  m = m' -> n = n' -> e = e' -> dec_to_f64 sg m n e = dec_to_f64 sg m' n' e'.
+Proof. intros -> -> ->. reflexivity. Qed.
+
+(** * float() of  SS[.F+] *)
+Lemma py_float_secs (ss : nat) frac : ss < 100 -> all_digits frac = true ->
+  py_float (d2 ss ++ frac_part frac) = Ok (secs_field ss frac).
+Proof.
+  intros Hs Hf. destruct (d2_digits ss Hs) as [Ha Hb].
+  set (a := (48 + N.of_nat (ss / 10))%N) in *. set (b := (48 + N.of_nat (ss mod 10))%N) in *.
+  pose proof (digit_not_space _ Ha) as Sa.
+  destruct (digit_not_sign _ Ha) as [P M].
+  assert (Hstrip : py_strip (d2 ss ++ frac_part frac) = a :: b :: frac_part frac).
+  { change (d2 ss ++ frac_part frac) with (a :: b :: frac_part frac).
+    apply py_strip_id with (c := a) (r := b :: frac_part frac); [reflexivity | exact Sa |].
+    destruct frac as [|c f].
+    - exists [a], b. split; [reflexivity | apply digit_not_space; exact Hb].
+    - unfold frac_part. destruct (@exists_last _ (c :: f) ltac:(discriminate)) as [pre [z Hz]].
+      exists (a :: b :: 46%N :: pre), z. split; [cbn [app]; rewrite Hz; reflexivity|].
+      apply digit_not_space. unfold all_digits in Hf. rewrite Hz, forallb_app in Hf.
+      apply andb_prop in Hf as [_ Hz']. cbn [forallb] in Hz'. apply andb_prop in Hz' as [Hz' _]. exact Hz'. }
+  unfold py_float. rewrite Hstrip. unfold split_sign. rewrite P, M.
+  (* not inf / nan: first character is a digit *)
+  assert (Hlow : to_lower a = a) by (unfold to_lower, is_digit in *; destruct ((65 <=? a)%N && (a <=? 90)%N) eqn:E; [lia | reflexivity]).
+  assert (Hninf : forall t u, str_eqb (lower_str (a :: t)) (105%N :: u) = false).
+  { intros t u. unfold lower_str. cbn [map str_eqb]. rewrite Hlow. unfold is_digit in Ha.
+    assert ((a =? 105)%N = false) as -> by lia. reflexivity. }
+  assert (Hnnan : forall t u, str_eqb (lower_str (a :: t)) (110%N :: u) = false).
+  { intros t u. unfold lower_str. cbn [map str_eqb]. rewrite Hlow. unfold is_digit in Ha.
+    assert ((a =? 110)%N = false) as -> by lia. reflexivity. }
+  rewrite !Hninf, Hnnan. cbn [orb].
+  unfold digit_part at 1. rewrite (digit_dec_val _ Ha). cbn [digit_run]. rewrite (digit_dec_val _ Hb).
+  destruct frac as [|c f].
+  - (* no fraction *)
+    cbn [frac_part digit_run]. cbn [Nat.add Nat.eqb].
+    unfold secs_field. cbn [length]. apply f_equal. apply dec_to_f64_ext.
+    + change (Z.of_nat 0) with 0%Z. unfold pow10. rewrite !Z.pow_0_r. unfold digits_val. cbn [fold_left].
+      subst a b. pose proof (d2_value ss Hs). lia.
+    + lia.
+    + lia.
+  - cbn [frac_part digit_run].
+    assert (Hdot : dec_val 46 = None) by reflexivity. rewrite Hdot.
+    assert ((46 =? 95)%N = false) as -> by reflexivity.
+    assert ((46 =? 46)%N = true) as -> by reflexivity.
+    unfold digit_part.
+    pose proof Hf as Hf'. unfold all_digits in Hf'. cbn [forallb] in Hf'. apply andb_prop in Hf' as [Hc Hfl].
+    rewrite (digit_dec_val _ Hc). rewrite (digit_run_digits f Hfl).
+    cbn [Nat.add Nat.eqb].
+    unfold secs_field. apply f_equal.
+    apply dec_to_f64_ext.
+    + unfold pow10. rewrite (fold_digits_shift f).
+      replace (digits_val (c :: f)) with ((Z.of_N c - 48) * 10 ^ Z.of_nat (length f) + digits_val f)%Z.
+      2:{ unfold digits_val at 2. cbn [fold_left]. rewrite (fold_digits_shift f). lia. }
+      cbn [length]. rewrite Nat2Z.inj_succ, Z.pow_succ_r by lia.
+      subst a b. pose proof (d2_value ss Hs). nia.
+    + cbn [length]. lia.
+    + cbn [length]. lia.
+Qed.
+
+(** * the three forms *)
+Lemma strip_form c hh mm ss frac : hh < 100 -> mm < 100 -> ss < 100 -> all_digits frac = true ->
+  remove_colons (tm_hms c hh mm ss frac) = d2 hh ++ d2 mm ++ d2 ss ++ frac_part frac.
+Proof.
+  intros Hh Hm Hs Hf. unfold tm_hms.
+  rewrite !remove_colons_app, !remove_colons_sep, !remove_colons_d2, remove_colons_frac by assumption.
+  reflexivity.
+Qed.
+
+Lemma len_gt (a b c d : N) rest : Nat.ltb 2 (length (a :: b :: c :: d :: rest)) = true /\
+                                  Nat.ltb 4 (length (a :: b :: c :: d :: rest)) = match rest with [] => false | _ => true end.
+Proof. destruct rest as [|x [|y r]]; split; reflexivity. Qed.
+
+Theorem tm_h_ok (hh : nat) : hh < 100 ->
+  dcm_time_to_sec (tm_h hh) = Ok (FFin (f_of_Z (Z.of_nat hh * 3600))).
+Proof.
+  intros Hh. unfold dcm_time_to_sec, time_to_sec_body, tm_h.
+  rewrite remove_colons_d2 by assumption.
+  change (firstn 2 (d2 hh)) with (d2 hh). rewrite py_int_d2 by assumption.
+  cbn [bind length d2 Nat.ltb Nat.leb]. reflexivity.
+Qed.
+
+Theorem tm_hm_ok c (hh mm : nat) : hh < 100 -> mm < 100 ->
+  dcm_time_to_sec (tm_hm c hh mm) = Ok (FFin (f_of_Z (whole_secs hh mm))).
+Proof.
+  intros Hh Hm. unfold dcm_time_to_sec, time_to_sec_body, tm_hm.
+  rewrite !remove_colons_app, remove_colons_sep, !remove_colons_d2 by assumption.
+  change (firstn 2 (d2 hh ++ [] ++ d2 mm)) with (d2 hh).
+  change (firstn 2 (skipn 2 (d2 hh ++ [] ++ d2 mm))) with (d2 mm).
+  rewrite !py_int_d2 by assumption.
+  cbn [bind length d2 app Nat.ltb Nat.leb]. reflexivity.
+Qed.
+
+Theorem tm_hms_ok c (hh mm ss : nat) frac : hh < 100 -> mm < 100 -> ss < 100 -> all_digits frac = true ->
+  dcm_time_to_sec (tm_hms c hh mm ss frac) = Ok (tm_value hh mm ss frac).
+Proof.
+  intros Hh Hm Hs Hf. unfold dcm_time_to_sec, time_to_sec_body.
+  rewrite strip_form by assumption.
+  change (firstn 2 (d2 hh ++ d2 mm ++ d2 ss ++ frac_part frac)) with (d2 hh).
+  change (firstn 2 (skipn 2 (d2 hh ++ d2 mm ++ d2 ss ++ frac_part frac))) with (d2 mm).
+  change (skipn 4 (d2 hh ++ d2 mm ++ d2 ss ++ frac_part frac)) with (d2 ss ++ frac_part frac).
+  rewrite !py_int_d2 by assumption. cbn [bind].
+  assert (L2 : Nat.ltb 2 (length (d2 hh ++ d2 mm ++ d2 ss ++ frac_part frac)) = true) by reflexivity.
+  assert (L4 : Nat.ltb 4 (length (d2 hh ++ d2 mm ++ d2 ss ++ frac_part frac)) = true) by reflexivity.
+  rewrite L2, L4. cbn [bind].
+  rewrite py_float_secs by assumption. cbn [bind]. reflexivity.
+Qed.
